@@ -16,6 +16,7 @@ from .. import vhdl_sim as VS
 from ..vhdl_parse import Illegal
 from ..vhdl_types import TVec, TStd, eval_model
 from ..bmc import compile_design, _install_init
+from .. import gen_trees
 
 HEADER = '''from __future__ import annotations
 import cohdl
@@ -355,8 +356,8 @@ LEAF_DECLARED = {
 }
 
 
-def design(name, body):
-    return "\n".join([HEADER, f"class {name}(cohdl.Entity):"] + PORTS + ["    def architecture(self):"] + ["        " + b for b in body]) + "\n"
+def design(name, body, prelude=()):
+    return "\n".join([HEADER] + list(prelude) + [f"class {name}(cohdl.Entity):"] + PORTS + ["    def architecture(self):"] + ["        " + b for b in body]) + "\n"
 
 
 def interface_ok(lib, name):
@@ -508,16 +509,20 @@ def run(tier: str) -> int:
     counts = {}
     K = 6 if tier == "quick" else 16
     try:
-        for key, seq, hier, flat, templates in TREES:
-            th, eh = compile_design(wd, design("Top", hier), "Top", "c12h")
-            tf, ef = compile_design(wd, design("Top", flat), "Top", "c12f")
+        items = [(key, seq, hier, flat, templates, (), LEAF_DECLARED) for key, seq, hier, flat, templates in TREES]
+        for seed in range(60 if tier == "quick" else 600):
+            g = gen_trees.gen_tree(seed)
+            items.append((g["key"], g["sequential"], g["hier"], g["flat"], set(g["templates"]), g["prelude"], {**LEAF_DECLARED, **{k: v for k, v in g["templates"].items() if v}}))
+        for key, seq, hier, flat, templates, prelude, leaf_declared in items:
+            th, eh = compile_design(wd, design("Top", hier, prelude), "Top", "c12h")
+            tf, ef = compile_design(wd, design("Top", flat, prelude), "Top", "c12f")
             rep.stats.programs += 2
             if th is None and templates is None:
                 counts["rejected"] = counts.get("rejected", 0) + 1  # a design cohdl may refuse (two templates of one name)
                 continue
             if th is None or tf is None:
                 which = "hierarchical" if th is None else "inlined"
-                rep.violation(f"rejected|{key}|{which}", f"{key}: {which} design rejected: {eh or ef}", {"hier": design('Top', hier), "flat": design('Top', flat)})
+                rep.violation(f"rejected|{key}|{which}", f"{key}: {which} design rejected: {eh or ef}", {"hier": design('Top', hier, prelude), "flat": design('Top', flat, prelude)})
                 continue
             try:
                 lib_h, lib_f = VS.Library(th), VS.Library(tf)
@@ -532,7 +537,7 @@ def run(tier: str) -> int:
             if not ok:
                 rep.violation(f"interface|{key}", f"{key}: emitted interface differs from the declared ports: {got}", {"vhdl": th})
             for d in lib_h.order:
-                want = LEAF_DECLARED.get(d.name)
+                want = leaf_declared.get(d.name)
                 got_l = [(n, m, str(t)) for n, m, t in d.ports]
                 if want is not None and sorted(got_l) != sorted(want):
                     rep.violation(f"interface|{key}|{d.name}", f"{key}: unit {d.name} is emitted with ports {got_l}, declared {want}", {"vhdl": th})
@@ -559,11 +564,12 @@ def run(tier: str) -> int:
         rep.stats.units |= {"cohdl._core._context.Entity.__init__", "frontend ConvertPythonInstance.apply (templates)", "backend EntityInst (port map), Library.from_top_entity (unit order)", "_vhdl_assembler (ir.Entity / EntityTemplate)"}
         rep.assumptions += ["bounded for clocked trees: K=%d clocks from power-up, all registers have declared defaults; combinational trees: all inputs" % K,
                             "connection matrix: every ordered pair of Bit/BitVector/Unsigned/Signed (listed widths) bound through an input and through an output port of a pass-through leaf: rejected, or legal text equal to the plain assignment dst <<= src for all values; accepted although the assignment is rejected = violation",
-                            "trees: depth <= 3, fan-out <= 3, repeated templates, slice and typed-view actuals, instances inside a concurrent context, combinational / registered / counter / coroutine leaves",
+                            "hand-written trees: depth <= 3, fan-out <= 3, repeated templates, slice and typed-view actuals, instances inside a concurrent context / nested blocks, combinational / registered / counter / coroutine leaves",
+                            "generated trees (vfw/gen_trees.py, seeds 0..%d): 2-5 templates (combinational / registered leaves, composites of 1-3 earlier templates), depth <= 5, instances placed plainly / in nested blocks / inside concurrent contexts with expression actuals, outputs bound to slices of wider signals, keyword order reversed; flat design = every instance path inlined" % ((60 if tier == "quick" else 600) - 1),
                             "the inlined design calls the same Python leaf functions; its own correctness is the subject of C01-C03"]
         return rep.finish({
-            "programs": rep.stats.programs, "trees": len(TREES), "results": counts,
-            "disagreements_checked": len(rep.violations), "distinct_nontrivial": len(rep.stats.nontrivial), "evaluations": len(TREES),
+            "programs": rep.stats.programs, "trees": len(items), "hand_written_trees": len(TREES), "generated_trees": len(items) - len(TREES), "results": counts,
+            "disagreements_checked": len(rep.violations), "distinct_nontrivial": len(rep.stats.nontrivial), "evaluations": len(items),
             "samples": rep.stats.samples or [{"tree": TREES[0][0]}],
         })
     finally:
